@@ -17,11 +17,45 @@ RULES = {
 }
 
 
-def accessor_shapes(ctx, facts, rule="TRACKERSHAPE"):
+def accessor_nf(facts, name, depth=0):
+    """normal form of a tracker accessor's body with immutable locals resolved and calls of sibling accessors on self replaced
+    by their own bodies (so `get_max_value` written as `self.get_value(self.last_index)` is `self.values[self.last_index]`)"""
+    import re as _re
+    f = facts.fn(MT + name)
+    R = resolver_of(f)
+    body = f["hir"]
+    e = body["expr"] if body["k"] == "Block" and "expr" in body and all(st["k"] == "Let" or hirq.in_log_macro(st) for st in body["stmts"]) else body
+    s_ = nf.nf(e, res=R).strip()
+    if s_.startswith("{") and s_.endswith("}"):
+        s_ = s_[1:-1].strip()
+    if depth < 3:
+        def rep(m_):
+            callee = m_.group(1)
+            arg = m_.group(2)
+            g = facts.fns.get(MT + callee)
+            if g is None or "hir" not in g or callee == name:
+                return m_.group(0)
+            inner = accessor_nf(facts, callee, depth + 1)
+            ps = [hirq.show_pat(p_["pat"]) for p_ in g["params"][1:]]
+            if len(ps) == 1 and arg:
+                inner = _re.sub(r"\b%s\b" % _re.escape(ps[0]), arg, inner)
+            elif ps or arg:
+                return m_.group(0)
+            return inner
+        s_ = _re.sub(r"self\.(get_value|get_max_value)\(([^()]*)\)", rep, s_)
+    return s_
+
+
+def accessor_shapes(ctx, facts, rule="TRACKERSHAPE", names=("get_max_value", "is_update_possible", "get_value")):
     shapes = {"get_max_value": "self.values[self.last_index]", "is_update_possible": "(value < self.values[self.last_index])", "get_value": "self.values[slot]"}
-    for name, want in shapes.items():
+    for name in names:
+        want = shapes[name]
         f = facts.fn(MT + name)
-        got = nf.nf(f["hir"]).strip("{}")
+        got = accessor_nf(facts, name)
+        if name == "is_update_possible":
+            want = want.replace("value", hirq.show_pat(f["params"][1]["pat"]))
+        if name == "get_value":
+            want = want.replace("slot", hirq.show_pat(f["params"][1]["pat"]))
         if got.replace(" ", "") == want.replace(" ", ""):
             ctx.ok(rule, MT + name, got, hirq.loc(f))
         else:
